@@ -214,9 +214,18 @@ def NoCommitYet (s : St) : Prop := Holds' s.job fun j => j.pc.beforeCommit = tru
 
 instance (s : St) : Decidable (NoCommitYet s) := by unfold NoCommitYet; infer_instance
 
-/-- no memdb flush has put its edit into the manifest (a table compaction does not count: its edit changes
-    neither the journal nor the sequence number) -/
-def FlushPending (s : St) : Prop := Holds' s.job fun j => j.kind = .flush → j.pc.beforeCommit = true
+/-- the session has not installed the job's edit: it is not in the manifest, or in the file but not yet synced (a
+    failing `Sync` takes the job back to `append`) -/
+def JPc.uninstalled : JPc → Bool
+  | .sync => true
+  | pc => pc.beforeCommit
+
+theorem JPc.uninstalled_of_bc {pc : JPc} (h : pc.beforeCommit = true) : pc.uninstalled = true := by
+  cases pc <;> first | rfl | cases h
+
+/-- no memdb flush has installed its edit (a table compaction does not count: its edit changes neither the journal nor
+    the sequence number): the frozen journal is still there, the session's numbers are at or below it -/
+def FlushPending (s : St) : Prop := Holds' s.job fun j => j.kind = .flush → j.pc.uninstalled = true
 
 instance (s : St) : Decidable (FlushPending s) := by unfold FlushPending; infer_instance
 
@@ -224,7 +233,7 @@ theorem NoCommitYet.flushPending {s : St} (h : NoCommitYet s) : FlushPending s :
   unfold NoCommitYet at h; unfold FlushPending
   cases hj : s.job with
   | none => trivial
-  | some j => rw [hj] at h; exact fun _ => h
+  | some j => rw [hj] at h; exact fun _ => JPc.uninstalled_of_bc h
 
 /-- sequence numbers around the group in flight -/
 def WSeqOK (s : St) : Prop :=
@@ -415,9 +424,14 @@ def JobManifest (cfg : Cfg) (s : St) (d : Disk) (e : MRec) : JPc → Prop
   | .rotRemove m => d.current = some m ∧ s.manifestFd ≠ some m ∧
     Holds (curManifest d) fun mf => mf.unsynced = [] ∧ Holds (lastView cfg d) (MirrorE s e)
   | .sync =>
+    -- the record is in the file, not yet synced; the last three clauses are what a retry after a failing `Sync` needs
+    -- again at `append` (there they are part of `JobOK.fresh`, `LimboFacts` and `InputsOK`)
     s.manifestOpen = true ∧
-    Holds (curManifest d) fun mf => (Holds mf.unsynced.head? fun r => mf.unsynced = [{ e with nf := r.nf }] ∧
-        r.nf ≤ s.nextFile) ∧ Holds (viewAt cfg mf 0) (Mirror s)
+    (Holds (curManifest d) fun mf => (Holds mf.unsynced.head? fun r => mf.unsynced = [{ e with nf := r.nf }] ∧
+        r.nf ≤ s.nextFile) ∧ Holds (viewAt cfg mf 0) fun v0 => Mirror s v0 ∧ ∀ a ∈ e.added, v0.nf ≤ a) ∧
+    s.stSq ≤ e.sq.getD s.stSq ∧
+    (e.jn = none → e.sq = none → (∀ t ∈ e.deleted, t ∈ s.live) ∧
+      e.added.flatMap (tableGrpsOf d) = e.deleted.flatMap (tableGrpsOf d))
   | .install => s.manifestOpen = true ∧ Settled cfg s d (MirrorE s e)
   | .rmJ _ | .rmT _ | .rmM _ | .done =>
     s.manifestOpen = true ∧ Settled cfg s d (MirrorL s) ∧ ∀ x, e.jn = some x → s.stJn = x
